@@ -620,3 +620,22 @@ Definition class_code (c : eclass) : list Z :=
   match c with ECNat w k => [w; k] | ECRef false _ => [-1; -1] | ECRef true _ => [-1; -2] | ECUnknown => [-9; -9] end.
 Definition flat_sig (s : list (string * option Z * list sfield)) : list Z :=
   flat_map (fun d => flat_map (fun x => class_code (snd (fst x)) ++ [snd x]) (snd d) ++ [-7]) s.
+
+(* ------------------------------------------------------------------ layouts as each language sees them *)
+(* the struct a C compiler / ctypes lays out from the emitted text: member width through the back end's table
+   (nested structs: their recorded size and alignment), member count as printed *)
+Definition lay (tbl : list (string * (Z * Z))) (cnt : pfield -> Z) (d : pdef) : list field :=
+  map (fun p =>
+         let w := match base_key p with
+                  | Some k => match tlookup k tbl with Some (w, _) => w | None => 0 end
+                  | None => pf_esize p
+                  end in
+         let a := match base_key p with Some _ => w | None => pf_align p end in
+         let n := cnt p in
+         (* a member printed `T x[0]` occupies no bytes (GNU C zero-length array) but keeps T's alignment *)
+         mkField 0 (if n =? 0 then 0 else w) a (if (n =? 1) || (n =? 0) then None else Some n) (-1)) (pd_fields d).
+Definition lay_c (d : pdef) : list field := lay c_types count_c d.
+Definition lay_py (d : pdef) : list field := lay py_types count_py d.
+(* what the parser recorded *)
+Definition lay_model (d : pdef) : list field :=
+  map (fun p => mkField 0 (pf_esize p) (pf_align p) (pf_len p) (pf_off p)) (pd_fields d).
